@@ -151,7 +151,7 @@ pub fn run(tier: Tier) -> i32 {
     // ordinary write on the same thread: nothing of the failed one may show in the second file
     let n_after_fail = AtomicU64::new(0);
     {
-        let fail_targets: Vec<std::path::PathBuf> = vec![scratch.path.join("no_such_dir/x.hex"), scratch.path.clone(), std::path::PathBuf::from("/dev/full")];
+        let fail_targets: Vec<std::path::PathBuf> = vec![scratch.path.join("no_such_dir/x.hex"), scratch.path.clone(), crate::report::dev_full_link(&scratch.path, "full_device")];
         let mut id = 20_000_000usize;
         let exe = std::env::current_exe().unwrap_or_else(|e| machinery_fail(&format!("current_exe: {}", e)));
         for (fi, ft) in fail_targets.iter().enumerate() {
@@ -222,7 +222,7 @@ pub fn worker_main(args: &[String]) -> i32 {
     let (first_code, second_code) = (args[4] == "1", args[5] == "1");
     let (l1, l2): (usize, usize) = (args[6].parse().unwrap_or(0), args[7].parse().unwrap_or(0));
     let failing = if first_code { built(pattern(2, l1), vec![]) } else { built(vec![], pattern(2, l1)) };
-    let target = std::path::PathBuf::from("/dev/full");
+    let target = crate::report::dev_full_link(&dir, &format!("full_device_{}", id));
     let _ = if first_code { sut::write_code_hex(target, &failing) } else { sut::write_eeprom_hex(target, &failing) };
     match check_one(&dir, id, second_code, l2, 0, 0) {
         None => println!("ok"),
